@@ -92,8 +92,48 @@ def vec_items(ctx, chk):
                     "phantom element" % str(why)[:160], "len(remainder) < len(input) at the push", t.get("sp"))
 
 
+def optional_untagged(ctx, chk):
+    """A positional (untagged) optional field is absent whenever its value cannot be decoded - whatever the reason: on
+    every path of `Option<T>::deserialize_tagged` on which the tag argument is None the result is Ok.  (An absent
+    `Option<Nested>` serialises to nothing; if only "input ran out" counted as absent, a Nested with a required tag
+    would turn the absent field into MissingRequiredTags.)"""
+    import pathsym as ps
+    zb = ctx.crate("zvt_builder")
+    bodies = [b for b in zb.bodies.values() if b.raw.get("impl_trait") == "zvt_builder::ZvtSerializerImpl" and
+              b.raw.get("name") == "deserialize_tagged" and ty_str(b.raw.get("impl_self")).startswith("core::option::Option<")]
+    if not chk.require(len(bodies) == 1, "C12-g/option-impl", "Option<T>::deserialize_tagged", "optional-field reader not found (%d)" % len(bodies),
+                       "", nontrivial=False):
+        return
+    b = bodies[0]
+    pe = ps.PathEval(b, zb.adts)
+    rets = [i for i in sorted(b.reachable(0)) if b.blocks[i]["term"]["t"] == "return"]
+    n_none = 0
+    for r in rets:
+        for path in ps.simple_paths(b, 0, r):
+            env, conds = pe.run(path)
+            untagged = any(ps.strip(ps.norm(ce)) == ("discr", ("pre", 2)) and taken == 0 for _, ce, taken, _ in conds)
+            if not untagged:
+                continue
+            n_none += 1
+            e = ps.norm(env.get(0, ("konst", "no value")))
+            chk.require(e[0] == "agg" and str(e[1]).endswith("Result::Ok"), "C12-g/optional-untagged-total", "Option<T>::deserialize_tagged",
+                        "without a tag the optional-field reader can fail (%s): a positional optional that is absent would be an error "
+                        "for element types whose decoder fails otherwise than by running out of input" % ps.show(e)[:80],
+                        "Ok on every untagged path", b.sp())
+    chk.require(n_none >= 2, "C12-g/optional-untagged-total", "Option<T>::deserialize_tagged",
+                "expected at least two untagged paths (present / absent), found %d" % n_none, "", b.sp(), nontrivial=False)
+
+
 def run(ctx, chk):
     vec_items(ctx, chk)
+    optional_untagged(ctx, chk)
+    # the declared value encoding of a field is only as good as that codec: Default little-endian and BigEndian big-endian in
+    # both directions for every integral type (shared with C17-b)
+    import rules_c17
+    from report import Sub
+    sub17 = Sub(chk, "C12-f", lambda r: r in ("C17-b/byte-order",))
+    rules_c17.run(ctx, sub17)
+    chk.floor("integral codec byte-order obligations (shared with C17-b)", sub17.count, 10)
     mode = "thorough" if ctx.tier == "thorough" else "quick"
     fx = build_fixture(mode, ctx.seed)
     with open(os.path.join(fx, "expected.json")) as fh:
